@@ -1430,6 +1430,10 @@ class GroupBy:
         wit = next((w_ for (r_, g_, p_, m_, w_) in self.interp.ctx.__dict__.get("_present_wit", []) if p_ is p or z3.eq(p_, p)), None)
         prev = getattr(self.interp, "current_group", None)
         self.interp.current_group = {"present": p, "witness": wit, "root": f.axis.root, "member": segs[0]}
+        nmin = getattr(self.interp, "group_rows_at_least", None)
+        if nmin:
+            # a precondition the harness states for the function under contract: every group it forms has >= nmin rows
+            self.interp.ctx.assume(z3.Implies(p, count_of(f.axis.root, segs[0]) >= nmin))
         try:
             res = func(view)
         finally:
